@@ -355,3 +355,10 @@ Theorem C15_chrome_comm_legacy_refuted :
   /\ json_ok (chrome_doc_items true [(100, [112])] [DComm 100 100 [97; 34; 98]] [118] [100] None) = true.
 Proof. exact chrome_comm_legacy_refuted. Qed.
 Print Assumptions C15_chrome_comm_legacy_refuted.
+
+(* Scheduler events (perf data) are calls of the pseudo functions linux:schedule / linux:schedule (pre-empted) in every
+   exporter (since e743adf also the pre-empted ones in dump); dump --chrome names both linux:schedule.  The renamed
+   stream of a well-formed stream is well formed, so C15_chrome_structure and the JSON theorems apply to it. *)
+Theorem C15_chrome_sched_stream_wf : forall s, wf_stream s = true -> wf_stream (chrome_stream s) = true.
+Proof. exact chrome_stream_wf. Qed.
+Print Assumptions C15_chrome_sched_stream_wf.
